@@ -38,6 +38,7 @@ def run(ctx, rep):
     index_dispatch(F, rep)
     index_guard(F, rep)
     filter_keeps_what_it_tested(F, rep)
+    result_identity(F, rep)
     values_not_views(F, rep)
     # what an assignment instruction writes into a list / map slot is a value, never a view of another slot (shared rule with C08)
     from props import C08 as _c08
@@ -628,3 +629,50 @@ def _stash_holds_values(F, fn, take_call, T, MOVE):
             if not okv:
                 bad += 1
     return stores > 0 and bad == 0
+
+
+
+# which list / map a built-in hands back: the receiver itself (an alias: updates through the result are updates of the receiver) or a container of
+# its own.  Confirmed by reading each arm on the pinned tree; `join` is the one operation whose result is the receiver (`xs.join(ys).join(zs)`
+# appends twice to xs).
+_RESULT_IS = {
+    "VecJoin": "receiver",
+    "VecClone": "fresh", "MapClone": "fresh", "VecMap": "fresh", "VecFilter": "fresh", "MapKeys": "fresh", "MapValues": "fresh", "MapPairs": "fresh",
+    "StrChars": "fresh", "StrSplit": "fresh",
+}
+
+
+def result_identity(F, rep, rule="C13.result-identity"):
+    """Every alias of a list sees every update, and a clone is independent: so it matters whether the list a built-in returns *is* the receiver or a
+    new one.  Per arm of BuiltInFunction::run that builds a Primitive::Vector / Map result: the container comes from the receiver argument
+    (`arguments.first()`, a pointer copy) exactly for the operations listed as returning the receiver, and from a constructor
+    (GcVector::new / with_capacity, GcMap::new) for the others.  An arm this table does not list is reported."""
+    from props import _casts
+    run, arms = _casts.arms_of_run(F)
+    n = 0
+    for name, blocks in sorted(arms.items()):
+        kinds = set()
+        where = None
+        for bi, si, dst, rv, st in run.assigns():
+            if bi in blocks and "agg" in rv and str(rv["agg"].get("adt", "")).endswith("primitive::Primitive") and rv["agg"].get("v") in ("Vector", "Map"):
+                l = op_local(rv["ops"][0])
+                oc = rules.origin_calls(run, l, transparent=rules.TRANSPARENT) if l is not None else []
+                where = where or st.get("us") or st.get("sp")
+                for x in oc:
+                    nm = mir.short(mir.strip_generics(x.callee()))
+                    if nm in ("[T]::first", "[T]::get", "Vec::first", "Vec::get"):
+                        kinds.add("receiver")
+                    elif nm in ("GcVector::new", "GcVector::with_capacity", "GcMap::new", "GcMap::with_capacity"):
+                        kinds.add("fresh")
+                    else:
+                        kinds.add("?" + nm)
+        if not kinds:
+            continue
+        n += 1
+        want = _RESULT_IS.get(name)
+        ok = want is not None and kinds == {want}
+        rep.ob(rule, "%s hands back %s" % (name, {"receiver": "the receiver itself", "fresh": "a container of its own"}.get(want, "a container (not in the table)")),
+               "ok" if ok else "violated",
+               "" if ok else ("the returned container comes from %s%s" % (sorted(kinds), "" if want else "; add the arm to the table after reading it")) +
+               (": `r = xs.join(ys)` / `r.push(1)` no longer reaches xs" if name == "VecJoin" else ""), where, fn=run.path, key="%s|%s" % (rule, name))
+    rep.floor(rule + " arms that build a list or map result", n, 9)
